@@ -117,7 +117,8 @@ BADFIELDS = ["nosuch", "~", "@L5000", "raw.z", "a%20b", "raw/nosuch", "raw/meta/
 NEWNAMES = ["newf", "raw", "~", "@L5000", "a/b", "raw/newm", "INDEX", "new.f", "ne#w", "nosuch/x", "al"]
 INFIELDS = ["raw", "nosuch", "~", "carray", "@L5000", "r16", "sarray", "lcbad"]
 POOL = {
-    "l": [0, 1, -1, -2, 5, 49, 50, 51, 1 << 31, 1 << 61, 1 << 62, (1 << 62) + 1, I63 - 1, I63 - 2, -I63, -I63 + 1, -(1 << 62), (I63 - 1) // 2 + 1],
+    # (no 2^31..2^40 offsets: a valid gd_putdata there legitimately creates a multi-gigabyte sparse file)
+    "l": [0, 1, -1, -2, 5, 49, 50, 51, 1 << 61, 1 << 62, (1 << 62) + 1, I63 - 1, I63 - 2, -I63, -I63 + 1, -(1 << 62), (I63 - 1) // 2 + 1],
     # no mid-size counts (2^31..2^40): the library would really allocate them, which only measures the allocator
     "z": [0, 1, 2, 5, 100, 1 << 16, 1 << 61, I63 - 1, I63, I64 - 1, I64 - 2],
     "u": [0, 1, 2, 3, 4, 5, 1 << 32, I63, I64 - 1, I64 - 2, I64 - 3],
